@@ -13,6 +13,7 @@ import (
 )
 
 var families = map[string]func(*h.Run){
+	"C01": props.C01,
 	"C03": props.C03,
 	"C10": props.C10,
 	"C16": props.C16,
